@@ -17,12 +17,12 @@ try:
     demo_src = os.path.join(src, meta["demo_file"])
     demo_dst = os.path.join(wt, meta["demo_dest"])
     import re
-    cmd = re.sub(r"/tmp/wt/%s(?![.\w])" % meta["property"], wt, meta["demo_cmd"])
+    cmd = re.sub(r"/tmp/wt/(R2)?%s(?![.\w])" % meta["property"], wt, meta["demo_cmd"])
     os.makedirs(os.path.dirname(demo_dst), exist_ok=True)
     shutil.copy(demo_src, demo_dst)
     rc, out = sh(cmd); ran["demo_clean"] = {"cmd": cmd, "rc": rc}
     if rc != 0: print("REJECT: demo fails on clean tree\n", out); sys.exit(1)
-    os.remove(demo_dst)
+    os.path.exists(demo_dst) and os.remove(demo_dst)
     rc, out = sh(f"git apply {os.path.abspath(os.path.join(src,'patch.diff'))}")
     if rc != 0: print("REJECT: patch does not apply\n", out); sys.exit(1)
     rc, out = sh("go build ./..."); ran["build"] = {"rc": rc}
